@@ -12,6 +12,8 @@ import (
 	"context"
 	"errors"
 	"runtime"
+	"sync"
+	"sync/atomic"
 	"testing"
 	"time"
 
@@ -205,4 +207,78 @@ func runStarved(p StarvedPlan) (vk.Outcome, error) {
 
 func TestTickerStarved(t *testing.T) {
 	vk.Run(t, suite, "ticker-starved", 12, genStarved, runStarved)
+}
+
+// ---------------------------------------------------------------- one ticker reset from many goroutines (real clock)
+//
+// A ticker that ticks as fast as it can is reset from up to 16 goroutines at once, hundreds of times each;
+// callbacks of long-superseded settings pile up behind its mutex. Then it is reset to one hour and its
+// channel emptied: from here on the channel has to stay empty ("the next tick will arrive after the new
+// period elapses") - whatever was in flight belongs to settings that are gone.
+
+type TickerStormPlan struct {
+	Goroutines int `json:"goroutines"`
+	Resets     int `json:"resets"`
+	Rounds     int `json:"rounds"`
+}
+
+func genTickerStorm(t *rapid.T) TickerStormPlan {
+	return TickerStormPlan{Goroutines: rapid.SampledFrom([]int{4, 8, 16}).Draw(t, "g"), Resets: rapid.IntRange(100, 400).Draw(t, "resets"), Rounds: rapid.IntRange(30, 120).Draw(t, "rounds")}
+}
+
+func runTickerStorm(p TickerStormPlan) (vk.Outcome, error) {
+	var out vk.Outcome
+	for round := 0; round < p.Rounds; round++ {
+		tk := xtime.NewJitterTicker(time.Hour, 0)
+		var wg, rwg sync.WaitGroup
+		var switched atomic.Int32
+		var tSwitch atomic.Value
+		done := make(chan struct{})
+		var stamps []time.Time
+		rwg.Add(1)
+		go func() {
+			defer rwg.Done()
+			for {
+				select {
+				case s := <-tk.C:
+					stamps = append(stamps, s)
+				case <-done:
+					return
+				}
+			}
+		}()
+		for g := 0; g < p.Goroutines; g++ {
+			wg.Add(1)
+			go func(g int) {
+				defer wg.Done()
+				for i := 0; i < p.Resets; i++ { // periods of a few nanoseconds: timers fire at once, their callbacks queue up
+					tk.Reset(time.Duration(1+(i+g)%4), 0)
+				}
+				tk.Reset(time.Hour, 0)
+				if int(switched.Add(1)) == p.Goroutines {
+					tSwitch.Store(time.Now()) // from here on only one-hour timers can be armed
+				}
+				for i := 0; i < 4*p.Resets; i++ { // ... and the settings keep changing while the queue drains
+					tk.Reset(time.Hour, 0)
+				}
+			}(g)
+		}
+		wg.Wait()
+		time.Sleep(200 * time.Microsecond)
+		tk.Stop()
+		close(done)
+		rwg.Wait()
+		ts := tSwitch.Load().(time.Time)
+		for _, s := range stamps {
+			if s.After(ts) {
+				return out, vk.Violf("tick-after-reset", "round %d: a tick stamped %v after every one of the %d goroutines had reset the ticker to one hour (they went on resetting it to one hour): it can only come from a setting that was long gone", round, s.Sub(ts), p.Goroutines)
+			}
+		}
+	}
+	out.NonTrivial, out.Execs = true, p.Rounds
+	return out, nil
+}
+
+func TestTickerResetStorm(t *testing.T) {
+	vk.Run(t, suite, "ticker-reset-storm", 30, genTickerStorm, runTickerStorm)
 }
